@@ -2,7 +2,8 @@
 # usage: tools/seed_matrix.sh [seeded/Cxx-k ...]
 # runs confirmed seeds (default: all) against the check of their own property (tier $SEED_TIER, default quick); rewrites their rows in seeded/RESULTS.tsv
 cd /verif
-touch seeded/RESULTS.tsv
+RES="${SEED_RESULTS:-seeded/RESULTS.tsv}"
+touch "$RES"
 DIRS="$@"; [ -z "$DIRS" ] && DIRS=$(ls -d seeded/C??-[0-9]* | sort -V)
 for d in $DIRS; do
   d=${d%/}
@@ -10,8 +11,8 @@ for d in $DIRS; do
   R=$(tools/seedrun.sh $d/patch.diff $ID 2>&1 | tail -1)
   n=$(echo "$R" | sed -n 's/.*violations=\([0-9]*\).*/\1/p')
   keys=$(echo "$R" | sed -n 's/.*keys=\(.*\)/\1/p' | sed -E 's/: [^[]*\[[0-9]+ cases\]//g' | tr -s ' ' | cut -c1-300)
-  grep -v "^$(basename $d)	" seeded/RESULTS.tsv > seeded/RESULTS.tmp; mv seeded/RESULTS.tmp seeded/RESULTS.tsv
-  printf "%s\t%s\t%s\t%s\n" "$(basename $d)" "$ID" "${n:-does-not-apply}" "$keys" | tee -a seeded/RESULTS.tsv
+  grep -v "^$(basename $d)	" "$RES" > "$RES.tmp"; mv "$RES.tmp" "$RES"
+  printf "%s\t%s\t%s\t%s\n" "$(basename $d)" "$ID" "${n:-does-not-apply}" "$keys" | tee -a "$RES"
 done
-sort -V -o seeded/RESULTS.tsv seeded/RESULTS.tsv
-git -C /repo status --short | head -3
+sort -V -o "$RES" "$RES"
+git -C "${SEED_REPO:-/repo}" status --short | head -3
